@@ -358,7 +358,23 @@ class History(object):
             self.log.append(('restore_acta',))
         return True
 
-    OPS = ['add_line', 'insert_anis', 'delete_atom', 'rename', 'element', 'isotropic', 'plan', 'cycles', 'wght', 'acta', 'frag', 'grow']
+    def op_resi(self):
+        """a residue is renumbered through the setter of its RESI instruction: the atoms in it are found under their new names"""
+        cands = [i for i, e in enumerate(self.ents) if e.kind == 'RESI' and not e.absorbed and getattr(e.obj, 'residue_number', 0) > 0 and getattr(e.obj, 'residue_class', '')]
+        if not cands:
+            return False
+        i = self.rng.choice(cands)
+        r = self.ents[i].obj
+        used = set(getattr(e.obj, 'residue_number', None) for e in self.ents if e.kind == 'RESI')
+        new = next(n for n in (self.rng.randint(20, 900) for _ in range(50)) if n not in used)
+        cls = r.residue_class
+        r.set('RESI %d %s' % (new, cls))
+        self.mops.append(('upd', r.index, str(r).split('\n')))
+        self.ents[i].lines = [['RESI', str(new), cls]]
+        self.log.append(('resi', new, cls))
+        return True
+
+    OPS = ['add_line', 'insert_anis', 'delete_atom', 'rename', 'element', 'isotropic', 'plan', 'cycles', 'wght', 'acta', 'frag', 'grow', 'resi']
 
     def step(self, name=None):
         name = name or self.rng.choice(self.OPS)
